@@ -164,7 +164,7 @@ impl Stdfs {
 impl Stdfs {
 // ---- mutators: which request is sent to the OS, for which absolute path
 //@ item move_p file=src/sys/fs/stdfs/mod.rs block="impl Stdfs" fn=move_p props=C09,C05,C12
-//@ rw R1 * re⟦dst_root\.mash\(src_path\.(\w+)\(\)\?\)⟧ => ⟦dst_root.mash_n(src_path.\1()?)⟧
+//@ rw R1 * re⟦dst_root\.mash\((\w+(?:\.as_ref\(\))?)\.(\w+)\(\)\?\)⟧ => ⟦dst_root.mash_n(\1.\2()?)⟧
     pub fn move_p(src: &PathBuf, dst: &PathBuf) -> (r: RvResult<()>)
         ensures r is Ok ==> ({
             let a = std_abs(src.comps()); let b = std_abs(dst.comps());
@@ -428,6 +428,10 @@ impl Stdfs {
 //@ rw R8 * ⟦StdfsEntry::from(src.path().dir()?)?.mode()⟧ => ⟦Stdfs::entry_mode(src.path().dir()?)?⟧
 //@ rw R8 * ⟦fs::copy(src.path(), &dst_path)?;⟧ => ⟦os_copy(src.path(), &dst_path)?;⟧
 //@ rw R3 1 for
+//@ ins before re⟦let dir_mode = ⟧
+        // past the guard: source and destination are different absolute paths (copying a file onto itself would truncate it)
+        proof { assert(src_root.abs_clean() && dst_root.abs_clean() && src_root@ != dst_root@); }      //@ clause stdfs.copy.does_nothing_exactly_when_source_and_destination_are_the_same_absolute_path [C09,C06,C05]
+//@ endins
 //@ ins after ⟦let copy_into = Stdfs::is_dir(&dst_root);⟧
         let ghost b = dst_root@;
 //@ endins
